@@ -119,8 +119,10 @@ Section FromPhi.
 
   (** *** one axis of _from_phi_{2..5}D_linalg: slopes and constants from the UNCLIPPED grid, only the
       betainc differences (cached_dbeta) see the clipped grid;  dot(dbeta1, c1) + dot(dbeta2, s) * (d+1)/((n+1)(n+2)) *)
-  Definition analytic_ax (n : nat) (xx phi : list F) : list F :=
-    let ivs := adj (apoints n xx (map clip xx) phi) in
+  Definition analytic_ax (n : nat) (xx : list F) : list F -> list F :=
+    let cols := map (fun x => (beta_col 1 n x, beta_col 2 n x)) (map clip xx) in     (* cached_dbeta: once per axis *)
+    fun phi =>
+    let ivs := adj (combine (combine xx phi) cols) in
     map (fun d => nsum (map (fun iv => a_db1 d iv * a_c1 n iv) ivs)
                   + nsum (map (fun iv => a_db2 d iv * a_s iv) ivs)
                     * (nofnat (d + 1) / (nofnat (n + 1) * nofnat (n + 2))))
@@ -129,8 +131,13 @@ Section FromPhi.
   (** *** one axis of the direct (trapezoid) paths; [het]: factor *= x (1-x) on the ascertained axis *)
   Definition dfactor (het : bool) (n i : nat) (x : F) : F :=
     if het then bker n i x * (x * (n1 - x)) else bker n i x.
-  Definition direct_ax (het : bool) (n : nat) (xx phi : list F) : list F :=
-    map (fun i => trapz xx (map2 (fun x p => dfactor het n i x * p) xx phi)) (seq 0 (S n)).
+  (** data[i] = trapz(factor_i * phi, xx) for a table of factors *)
+  Definition fac_apply (xx : list F) (fac : list (list F)) (phi : list F) : list F :=
+    map (fun fi => trapz xx (map2 nmul fi phi)) fac.
+  Definition direct_fac (het : bool) (n : nat) (xx : list F) : list (list F) :=
+    map (fun i => map (dfactor het n i) xx) (seq 0 (S n)).
+  Definition direct_ax (het : bool) (n : nat) (xx : list F) : list F -> list F :=
+    let fac := direct_fac het n xx in fac_apply xx fac.                               (* factor cache *)
 
   (** *** inbreeding: beta-binomial convolution *)
   Fixpoint rising (a : F) (k : nat) : F :=          (* a (a+1) ... (a+k-1) *)
@@ -159,7 +166,7 @@ Section FromPhi.
   (** float64 constants of the inbreeding code: 1.0e-20, (1.0 - 1.0e-20) == 1.0, 1 - 1e-10 *)
   Definition tiny : F := nofZ 6646139978924579 / nofZ (2 ^ 119).
   Definition one_minus_tiny : F := n1.
-  Definition Fcap : F := nofZ 9007198354333508 / nofZ (2 ^ 53).
+  Definition Fcap : F := nofZ 562949953365017 / nofZ (2 ^ 49).
   (** alpha = xx * ((1-F)/F) with the two end points overwritten; beta likewise *)
   Definition set_ends (l : list F) (first last : F) : list F :=
     match l with
@@ -167,16 +174,19 @@ Section FromPhi.
     | [_] => [last]
     | _ :: t => first :: (removelast t ++ [last])
     end.
-  Definition inb_ax (het : bool) (n ploidy : nat) (Fx : F) (xx phi : list F) : list F :=
+  Definition inb_fac (het : bool) (n ploidy : nat) (Fx : F) (xx : list F) : list (list F) :=
     let c := (n1 - Fx) / Fx in
     let alpha := set_ends (map (fun x => x * c) xx) (tiny * c) (one_minus_tiny * c) in
     let beta := set_ends (map (fun x => (n1 - x) * c) xx) (one_minus_tiny * c) (tiny * c) in
     let nInd := Nat.div n ploidy in
-    map (fun i => trapz xx (map2 (fun xab p =>
-                     let '(x, (a, b)) := xab in
-                     let f := bbconv i nInd a b ploidy in
-                     (if het then f * (x * (n1 - x)) else f) * p) (combine xx (combine alpha beta)) phi))
+    (* per grid point, BetaBinomConvolution(i, nInd, alpha, beta, ploidy) for all i at once: the coefficients of
+       the nInd-th power of the beta-binomial generating polynomial ([bbconv_pow]; the partition form [bbconv]
+       of the code is compared with it exactly on every BetaBinomConvolution correspondence case) *)
+    let cols := map (fun ab => ppow (bb_table ploidy (fst ab) (snd ab)) nInd) (combine alpha beta) in
+    map (fun i => map2 (fun x col => let f := nth i col n0 in if het then f * (x * (n1 - x)) else f) xx cols)
         (seq 0 (S n)).
+  Definition inb_ax (het : bool) (n ploidy : nat) (Fx : F) (xx : list F) : list F -> list F :=
+    let fac := inb_fac het n ploidy Fx xx in fac_apply xx fac.
 
   (** *** d dimensions: apply a 1-D function along one axis, the other axes being mapped over *)
   Definition col (p : nat) (blocks : list (list F)) : list F := map (fun b => nth p b n0) blocks.
